@@ -1,13 +1,16 @@
 """C03 — Realtime safety: the message path never allocates and never locks.
 
 Own flow (tools/check.py calls main(argv)):
-  1. tools/callgraph.py regenerates lean/RtoscModel/CallGraph/Generated.lean from the LLVM IR of
-     the working tree (+ harness/rt_entries.cpp) and computes the reachable-set certificate.
+  1. tools/callgraph.py regenerates lean/RtoscModel/CallGraph/Generated.lean (configuration `min`: c++11 -O1) and
+     Generated17.lean (configuration `shipped`: language level / optimisation / defines of CMakeLists.txt) from the
+     LLVM IR of the working tree (+ harness/rt_entries.cpp) and computes one reachable-set certificate per graph.
   2. lake build RtoscModel.Props.C03: the kernel re-checks the per-run theorems by evaluation
-     (`decide +kernel`) over the generated data; textual audit; #print axioms.
+     (`decide +kernel`) over the generated data of BOTH graphs; textual audit; #print axioms.
   3. The dynamic engine `rt` (harness/rt.cpp, built WITHOUT ASan, allocator and mutex functions
-     interposed) runs generated ops inside a marked realtime section; every output line must
-     report hits=0.  This validates the graph's resolution assumptions against executions.
+     interposed) runs generated ops inside a marked realtime section — once linked with the library compiled at
+     c++11 -O1, once with the library compiled by gcc the way CMakeLists.txt does (gnu++17 -O3), and once more against
+     <tree>/_build/librtosc*.a when an up-to-date CMake build of the tree exists.  Every output line must report
+     hits=0, no exception, no blocked operation; a crash or hang inside the realtime section is a failure too.
   4. A failed obligation prints the shortest offending call path into the replay and the dynamic
      engine is driven towards the entry that path starts from; a concrete allocating op line is the
      failing input, otherwise `no-failing-input-found`.
@@ -29,13 +32,14 @@ PROP = "C03"
 ENGINE = "rt"
 FLAVOUR = "plain"
 LEAN_MODULES = ["RtoscModel.Props.C03"]
-THEOREMS = ["Rtosc.CallGraph.closed_contains_reachable",
-            "Rtosc.CallGraph.cert_closed", "Rtosc.CallGraph.cert_contains_entries",
-            "Rtosc.CallGraph.cert_avoids_forbidden", "Rtosc.CallGraph.cert_externals_whitelisted",
-            "Rtosc.CallGraph.whitelist_not_forbidden",
-            "Rtosc.CallGraph.rt_path_never_allocates_or_locks"]
+_PER_GRAPH = ["cert_closed", "cert_contains_entries", "cert_avoids_forbidden", "cert_externals_whitelisted",
+              "whitelist_not_forbidden", "api_entries_pinned", "forbidden_names_pinned", "safe"]
+THEOREMS = (["Rtosc.CallGraph.closed_contains_reachable", "Rtosc.CallGraph.Graph.safe_of_cert"] +
+            ["Rtosc.CallGraph.min_" + t for t in _PER_GRAPH] + ["Rtosc.CallGraph.shipped_" + t for t in _PER_GRAPH] +
+            ["Rtosc.CallGraph.rt_path_never_allocates_or_locks"])
 HARNESS = {"src": ["rt.cpp", "rt_entries.cpp"], "deps": ["common.h", "rt_tree.h", "rt_entries.h"], "libs": ["-ldl"]}
-RULE = ("dynamic side: op lines for the engine `rt` (allocator/mutex interposed, counted inside the realtime section only): "
+RULE = ("dynamic side: op lines for the engine `rt` (allocator/mutex interposed, counted inside the realtime section only; run "
+        "against the library compiled at c++11 -O1 AND compiled by gcc with the language level / optimisation of CMakeLists.txt): "
         "build/measure/read of generated messages over every type tag incl. oversized and too-small buffers (rtosc_amessage, "
         "rtosc_vmessage via a crafted va_list, literal rtosc_message call sites), raw messages, bundles incl. nested, "
         "rtosc_match/rtosc_match_path over generated patterns, Ports::dispatch on the sugar tree (every callback macro of "
@@ -43,29 +47,39 @@ RULE = ("dynamic side: op lines for the engine `rt` (allocator/mutex interposed,
         "hash-failing tables, enumerated #N tables, nested sub-trees, default handler, heap-stored functor callbacks) with "
         "matching / non-matching / oversized messages, with and without location buffer, base and application RtData; default "
         "reply/broadcast forwarding; ThreadLink write/writeArray/raw_write/hasNext/read/lookahead histories over small rings "
-        "(wrap-around, full ring, oversized message). A case is non-trivial when it carries a payload (>= 1 argument / element / "
+        "(wrap-around, full ring, oversized message, and operations interrupted in the middle by a fault whose handler operates "
+        "on the same link: an operation that waits for a lock never returns). A case fails when it counts an allocator / mutex "
+        "call, lets an exception escape, blocks, crashes or hangs inside the realtime section, or when a table built with the "
+        "library's own macros holds an empty callback. A case is non-trivial when it carries a payload (>= 1 argument / element / "
         "ring operation pair / a dispatch whose address has >= 1 path component); distinct = distinct op line")
 ASSUMPTIONS = [
-    "the call graph is extracted from clang-14 -O1 -DNDEBUG LLVM IR; an indirect call reaches exactly the address-taken functions of the same function type (pointer types erased)",
-    "the graph is that of the -O1 build: an allocation the optimiser removes (an unused malloc/free pair) is not an edge",
-    "stated precondition: no empty std::function is invoked (edge to std::__throw_bad_function_call excluded)",
-    "stated precondition: assertions are compiled out (NDEBUG, as in the default build)",
-    "stated precondition: no exception unwinds on the realtime path (calls in landing pads / catch handlers excluded; everything that can throw is in the forbidden set)",
-    "application callbacks are represented by the callbacks of harness/rt_tree.h (every port-sugar.h callback macro) and an application RtData that copies replies into a fixed buffer",
+    "the call graphs are extracted from clang-14 LLVM IR in two configurations: `min` = -std=c++11/-std=gnu99 -O1 -DNDEBUG (lowest language level the headers support) and `shipped` = language level, optimisation level and definitions read from CMakeLists.txt (CMAKE_CXX_STANDARD 17 with extensions = -std=gnu++17, the rtosc target's -std=c99, default build type Release = -O3 -DNDEBUG); the certificate must hold for both",
+    "compiler difference: the library is shipped compiled by gcc, which emits no LLVM IR; the graphs are clang's view of the same sources (code under `#if defined(__GNUC__) && !defined(__clang__)`, and gcc-specific inlining / libstdc++ code paths chosen by gcc builtins, are seen only by the dynamic engine, which is built with g++ in both configurations)",
+    "each graph is that of an optimised build: an allocation the optimiser removes (an unused malloc/free pair) is not an edge",
+    "hypothesis of the theorem (Graph.Safe, `hgraph`): every call that can happen at run time is an edge of the extracted graph or one of the listed excluded edges; for indirect calls this means: a virtual call reaches the functions in the same vtable slot of the receiver's static class and the classes derived from it, restricted to classes instantiated by code reachable from the realtime entries, by the support functions of harness/rt_entries.cpp (rtosc::RtData and the application-style rtt::CapData stand for the objects an application passes in) or by a static initialiser; any other indirect call reaches exactly the address-taken functions of the same function type (pointer types erased)",
+    "hypothesis of the theorem (Graph.Safe, `hpre`; the edges are listed in excludedEdges of the generated modules): no empty std::function is invoked (edge to std::__throw_bad_function_call) - checked by the dynamic engine for every port of the tables built with the library's own macros (`emptycb`), assumed for application tables; assertions are compiled out (__assert_fail; NDEBUG as in the default build); no exception unwinds on the realtime path (calls in landing pads / catch handlers; everything that can throw is in the forbidden set and the dynamic engine reports any exception that leaves the realtime section)",
+    "application callbacks are represented by the callbacks of harness/rt_tree.h (every port-sugar.h callback macro) and an application RtData that copies replies into a fixed buffer; port tables defined in the library's other translation units (e.g. MidiMapperRT::ports) are not analysed",
     "external leaves on the whitelist (see coverage.whitelist_reached) neither allocate, lock nor throw; this is assumed of libc, not proved (the dynamic engine observes no allocator call from them)",
+    "`never locks` is checked as: no mutex / rwlock / condition / once / guard function is reachable, no function on the path contains an atomic read-modify-write instruction (atomicrmw, cmpxchg: what a lock without a callee is made of; plain atomic loads and stores are allowed), and dynamically no operation blocks when it is started while another operation on the same ThreadLink is suspended; a wait loop built from plain atomic loads/stores only would not be seen by the graph",
     "not covered: page faults, lazy PLT binding, allocation inside whitelisted libc functions under unusual locales",
 ]
-TRUSTED = ["tools/callgraph.py (textual LLVM IR extraction, classification lists FORBIDDEN/WHITELIST), clang 14 IR emission, llvm-link",
+TRUSTED = ["tools/callgraph.py (textual LLVM IR extraction, CMakeLists.txt flag extraction, classification lists FORBIDDEN/WHITELIST), clang 14 IR emission, llvm-link",
            "the dynamic engine harness/rt.cpp (symbol interposition of the allocator and pthread mutex functions)"]
-LEVEL_TEXT = ("Lean theorem rt_path_never_allocates_or_locks: in the call graph regenerated from the working tree's LLVM IR on every "
-              "run, no call path of any length from a realtime entry point reaches an allocator, deallocator, mutex, "
-              "exception-allocation or stdio function, and every external it reaches is a whitelisted leaf; generic induction "
-              "proved once, per-run obligations checked by kernel evaluation of a reachable-set certificate; the graph's "
-              "indirect-call resolution is validated by executing thousands of generated realtime operations with the "
-              "allocator and mutex functions interposed")
-LEVEL_NOTE = ("partial with respect to the property: proof is over the extracted call graph (sound only up to the stated "
-              "indirect-call resolution and the whitelist of libc leaves); the dynamic side is evidence, not proof")
-TECHNIQUE = "Lean 4 kernel-checked reachability certificate over a call graph generated from LLVM IR + allocator/mutex interposition run"
+LEVEL_TEXT = ("proof over a regenerated call graph; partial. Lean theorem rt_path_never_allocates_or_locks: for the call graph "
+              "regenerated on every run from the working tree's LLVM IR in each of two build configurations (c++11 -O1, and "
+              "gnu++17/c99 -O3 as CMakeLists.txt builds the library), under the two explicit hypotheses that the graph "
+              "over-approximates the calls that can happen and that the listed excluded edges (empty std::function, assert, "
+              "unwinding) are never executed: no call path of any length from a realtime entry point reaches an allocator, "
+              "deallocator, mutex, exception-allocation or stdio function or a function containing an atomic read-modify-write "
+              "instruction, and every external it reaches is a whitelisted leaf; the public realtime API functions are pinned by "
+              "name to be entries and the allocator/lock names to be forbidden; generic induction proved once, per-run "
+              "obligations checked by kernel evaluation of a reachable-set certificate; the graph's indirect-call resolution "
+              "and the excluded edges are validated by executing thousands of generated realtime operations with the allocator "
+              "and mutex functions interposed, against the library built in both configurations with gcc")
+LEVEL_NOTE = ("partial with respect to the property: the proof is about the extracted call graphs (a model regenerated from the "
+              "code, sound only up to the stated indirect-call resolution, the excluded edges and the whitelist of libc leaves), "
+              "not about the machine code gcc ships; the dynamic side is evidence, not proof")
+TECHNIQUE = "Lean 4 kernel-checked reachability certificates over call graphs generated from LLVM IR (two build configurations) + allocator/mutex interposition run"
 
 PAYLOAD = "ifhdtsSbmcr"
 
@@ -543,9 +557,15 @@ def op_tlink(rng, stats):
         # the first operation on the fresh link is a lookahead query / read (R = read without asking hasNext first)
         ops.append(rng.choice(["h1", "h3", "r1", "r3", "R1", "R3", "R0", "p"]))
         stats["tlink_first_op_lookahead"] = stats.get("tlink_first_op_lookahead", 0) + 1
+    faulty = rng.random() < 0.25     # histories with operations interrupted in the middle (see harness/rt.cpp)
+    if faulty:
+        stats["tlink_histories_with_interrupted_ops"] = stats.get("tlink_histories_with_interrupted_ops", 0) + 1
     for _ in range(rng.randint(4, 40)):
         r = rng.random()
-        if r < 0.02:
+        if faulty and rng.random() < 0.15:
+            ops.append("f" + rng.choice("law") + rng.choice("lawhr"))
+            stats["tlink_interrupted_ops"] = stats.get("tlink_interrupted_ops", 0) + 1
+        elif r < 0.02:
             ops.append("R%d" % rng.randrange(4))
         elif r < 0.25:
             types = rtypes(rng, 4)
@@ -634,7 +654,7 @@ def nontrivial(op, out=""):
     if w[0] == "reply":
         return w[3] != "0"
     if w[0] == "tlink":
-        return ("a:" in w[3] or "l:" in w[3] or "w:" in w[3]) and (";r" in w[3] or ";R" in w[3])
+        return ("a:" in w[3] or "l:" in w[3] or "w:" in w[3] or "f" in w[3]) and (";r" in w[3] or ";R" in w[3])
     if w[0] == "meta":
         return True
     return False
@@ -644,16 +664,34 @@ HITS = re.compile(r"^hits=(\d+)\b")
 
 
 def oracle(op, out):
-    """The property on the implementation's output: no allocator / lock hit inside the realtime section."""
+    """The property on the implementation's output: no allocator / lock hit inside the realtime section, no exception
+    leaving it, no operation blocked on a lock, no empty callback in a table built with the library's own macros; and
+    the process survives the realtime section."""
     m = HITS.match(out)
     if m:
         if op.startswith("selftest"):
-            return None if int(m.group(1)) >= 5 else "the interposition self-test counted only %s hits" % m.group(1)
-        return None if m.group(1) == "0" else "allocator/lock calls inside the realtime section: " + out[:300]
+            if int(m.group(1)) < 5 or " catches=1" not in out:
+                return "the interposition self-test counted only %s hits / missed the exception: %s" % (m.group(1), out[:200])
+            if " emptycb=" in out:
+                return ("a table built with the library's own port macros holds an empty std::function callback (dispatching to it "
+                        "throws std::bad_function_call, which allocates): " + out[out.index(" emptycb="):][:200])
+            return None
+        if m.group(1) != "0":
+            return "allocator/lock calls inside the realtime section: " + out[:300]
+        if " threw=1" in out:
+            return "an exception left the realtime section: " + out[:300]
+        if " blocked=1" in out:
+            return ("a ThreadLink operation started while another operation on the same link was suspended never returned "
+                    "(it waits for a lock): " + out[:300])
+        if " emptycb=" in out:
+            return ("a table built with the library's own port macros holds an empty std::function callback: " + out[:300])
+        return None
     if out.startswith("skip") or out in ("no-port",):
         return None
     if out.startswith("crash:"):
-        return None   # a crash is not what C03 is about (recorded in the evidence)
+        # the unchanged tree survives every generated op (baseline: 0 crashes); a realtime section that kills the process
+        # (std::terminate after an exception, a fault) or does not return cannot be counted as "did not allocate"
+        return "the process died / hung inside the realtime section (%s): nothing can be certified for this input" % out
     return "engine rejected the op line: " + out[:100]
 
 
@@ -737,7 +775,7 @@ def check_proofs(tier, cov):
     if m:
         cov["kernel_check_s"] = float(m.group(1)) / (1000.0 if m.group(2) == "ms" else 1.0)
     elif ok:
-        # lake had nothing to rebuild (same generated graph as the last run): re-elaborate the file anyway, so that
+        # lake had nothing to rebuild (same generated graphs as the last run): re-elaborate the file anyway, so that
         # the kernel evaluation over the generated data happens, and is timed, on every run
         t1 = time.time()
         r = vlib.sh(["lake", "env", "lean", os.path.join("RtoscModel", "Props", "C03.lean")], cwd=vlib.LEAN)
@@ -754,7 +792,7 @@ def check_proofs(tier, cov):
     else:
         tail = out[-3000:]
         # make sure the imports of the scratch copy exist
-        vlib.lake_build(["RtoscModel.CallGraph.Reach", "RtoscModel.CallGraph.Generated"])
+        vlib.lake_build(["RtoscModel.CallGraph.Reach", "RtoscModel.CallGraph.Generated", "RtoscModel.CallGraph.Generated17"])
         ax, txt = scratch_audit(theorems, PROP)
         tail += "\n--- scratch elaboration ---\n" + txt[-2000:]
     for t in theorems:
@@ -782,6 +820,111 @@ def check_proofs(tier, cov):
 
 
 # ---------------------------------------------------------------------------------------
+# dynamic engines
+# ---------------------------------------------------------------------------------------
+def _compile_all(jobs):
+    """jobs: [(tag, cmd)] run side by side; raises BuildError with the log of what failed"""
+    import subprocess
+    procs = [(t, subprocess.Popen(c, stdout=subprocess.PIPE, stderr=subprocess.STDOUT, text=True)) for t, c in jobs]
+    bad = ""
+    for t, p in procs:
+        o, _ = p.communicate()
+        if p.returncode != 0:
+            bad += "== %s\n%s\n" % (t, o[-3000:])
+    if bad:
+        raise vlib.BuildError(bad)
+
+
+def build_engine_shipped():
+    """The engine linked with the library compiled by gcc/g++ with what CMakeLists.txt says (language levels, build
+    type flags, definitions); the harness units (rt_entries.cpp instantiates the header macros) get the same flags.
+    Additionally, when <tree>/_build holds static libraries newer than every source, an engine linked with those.
+    Returns [(name, exe, description)]."""
+    import shutil
+    cm = callgraph.cmake_config()
+    cxx = ["-std=" + cm["cxx_std"]]
+    c_core = ["-std=" + cm["c_std_core"]] if cm["c_std_core"] else []
+    c_other = ["-std=" + cm["c_std_other"]] if cm["c_std_other"] else []
+    opt = cm["opt"] + cm["defs"] + ["-fPIC", "-g", "-DRTOSC_VERIF"]
+    core = set(cm["core_c"] or ["src/rtosc.c", "src/dispatch.c", "src/rtosc-time.c"])
+    hdir = os.path.join(vlib.VERIF, "harness")
+    hsrc = [os.path.join(hdir, x) for x in HARNESS["src"]]
+    hdeps = hsrc + [os.path.join(hdir, d) for d in HARNESS["deps"]]
+    key = vlib.sha_files(vlib.repo_files() + hdeps, " ".join(cxx + c_core + c_other + opt) + "rt17-2")
+    exe = os.path.join(vlib.BUILD, "h-rt17-" + key)
+    inc = ["-I", os.path.join(vlib.REPO, "include"), "-I", os.path.join(vlib.REPO, "src/cpp"),
+           "-I", os.path.join(vlib.REPO, "src"), "-I", hdir]
+    desc = "library + harness compiled by gcc/g++ with %s / %s, %s" % (" ".join(cxx), " ".join(c_core) or "default C", " ".join(opt))
+    out = []
+    with vlib.Lock("h-rt17"):
+        objdir = os.path.join(vlib.BUILD, "lib-ship-" + key)
+        hobjs = [os.path.join(objdir, "h_" + os.path.basename(x) + ".o") for x in hsrc]
+        if not os.path.exists(exe):
+            for f in os.listdir(vlib.BUILD):
+                if f.startswith("h-rt17-") and not f.endswith(".lock"):
+                    try:
+                        os.remove(os.path.join(vlib.BUILD, f))
+                    except OSError:
+                        pass
+                if f.startswith("lib-ship-"):
+                    shutil.rmtree(os.path.join(vlib.BUILD, f), ignore_errors=True)
+            os.makedirs(objdir, exist_ok=True)
+            vlib.version_c(os.path.join(objdir, "version.c"))
+            jobs = []
+            objs = []
+            for x in vlib.LIB_C + ["version.c"]:
+                src = os.path.join(objdir, x) if x == "version.c" else os.path.join(vlib.REPO, x)
+                o = os.path.join(objdir, x.replace("/", "_") + ".o")
+                objs.append(o)
+                jobs.append((x, ["gcc"] + (c_core if x in core else c_other) + ["-c", src, "-o", o] + opt + inc))
+            for x in vlib.LIB_CXX:
+                o = os.path.join(objdir, x.replace("/", "_") + ".o")
+                objs.append(o)
+                jobs.append((x, ["g++"] + cxx + ["-c", os.path.join(vlib.REPO, x), "-o", o] + opt + inc))
+            for x, o in zip(hsrc, hobjs):
+                jobs.append((x, ["g++"] + cxx + ["-c", x, "-o", o] + opt + inc))
+            _compile_all(jobs)
+            r = vlib.sh(["g++"] + hobjs + objs + ["-o", exe + ".tmp", "-lpthread"] + HARNESS.get("libs", []))
+            if r.returncode != 0:
+                raise vlib.BuildError("engine rt17 does not link:\n" + r.stdout[-4000:])
+            os.rename(exe + ".tmp", exe)
+        out.append(("shipped", exe, desc))
+        # ---- the tree's own CMake build, when there is one and it is not older than the sources
+        libs = [os.path.join(vlib.REPO, "_build", x) for x in ("librtosc-cpp.a", "librtosc.a")]
+        if all(os.path.exists(x) for x in libs):
+            newest = max(os.path.getmtime(f) for f in vlib.repo_files() if os.path.exists(f))
+            if min(os.path.getmtime(x) for x in libs) >= newest:
+                k2 = vlib.sha_files(libs + hdeps, key + "cm")
+                exe2 = os.path.join(vlib.BUILD, "h-rtcm-" + k2)
+                if not os.path.exists(exe2):
+                    for f in os.listdir(vlib.BUILD):
+                        if f.startswith("h-rtcm-"):
+                            try:
+                                os.remove(os.path.join(vlib.BUILD, f))
+                            except OSError:
+                                pass
+                    if not all(os.path.exists(o) for o in hobjs):
+                        os.makedirs(objdir, exist_ok=True)
+                        _compile_all([(x, ["g++"] + cxx + ["-c", x, "-o", o] + opt + inc) for x, o in zip(hsrc, hobjs)])
+                    r = vlib.sh(["g++"] + hobjs + libs + ["-o", exe2 + ".tmp", "-lpthread"] + HARNESS.get("libs", []))
+                    if r.returncode == 0:
+                        os.rename(exe2 + ".tmp", exe2)
+                    else:
+                        vlib.log("C03: cannot link against %s (ignored): %s" % (libs[0], r.stdout[-300:]))
+                        exe2 = None
+                if exe2:
+                    out.append(("cmake-build", exe2, "harness linked with the tree's own CMake build " + ", ".join(libs)))
+    return out
+
+
+def build_engines():
+    engines = [("min", vlib.build_harness(ENGINE, HARNESS, FLAVOUR),
+                "library + harness compiled by gcc/g++ -std=c++11/-std=gnu99 -O1 -DNDEBUG (tools/vlib.py)")]
+    engines += build_engine_shipped()
+    return engines
+
+
+# ---------------------------------------------------------------------------------------
 # main
 # ---------------------------------------------------------------------------------------
 def run_ops(exe, ops, workdir, tag):
@@ -790,6 +933,14 @@ def run_ops(exe, ops, workdir, tag):
     for i in range(0, len(ops), step):
         outs += vlib.run_harness(exe, ops[i:i + step], workdir, "%s%d" % (tag, i))
     return outs
+
+
+def run_all(engines, ops, workdir, tag):
+    """Runs the op lines on every engine side by side; returns {engine name: outputs}"""
+    import concurrent.futures
+    with concurrent.futures.ThreadPoolExecutor(max_workers=len(engines)) as ex:
+        futs = {n: ex.submit(run_ops, exe, ops, workdir, "%s-%s" % (tag, n)) for n, exe, _ in engines}
+        return {n: f.result() for n, f in futs.items()}
 
 
 def main(argv):
@@ -814,59 +965,78 @@ def main(argv):
 
 
 def _run(args, workdir, t0):
+    import threading
     tier, seed = args.tier, args.seed
     cov = {}
 
     # ---- harness first (a tree that does not compile is not a verdict) ---------------------
     try:
-        exe = vlib.build_harness(ENGINE, HARNESS, FLAVOUR)
+        engines = build_engines()
     except vlib.BuildError as e:
         vlib.log(str(e))
         print("ERROR: cannot build implementation harness for %s (the tree does not compile)" % PROP)
         return 2
+    cov["engines"] = {n: d for n, _, d in engines}
 
     # ---- replay mode ----------------------------------------------------------------------
     if args.replay:
         payload = json.load(open(args.replay))
         for o in payload.get("offending_paths", []):
-            print("call path to %s (%s):" % (o["demangled"], o["why"]))
+            print("[%s] call path to %s (%s):" % (o.get("config", "?"), o["demangled"], o["why"]))
             for s in o["steps"]:
                 print("    " + s)
         ops = payload.get("ops", [])
         if ops:
-            outs = run_ops(exe, ops, workdir, "replay")
-            for o, a in zip(ops, outs):
+            res = run_all(engines, ops, workdir, "replay")
+            for i, o in enumerate(ops):
                 print("op   :", o[:2000])
-                print("impl :", a)
-                print("oracle:", oracle(o, a) or "ok")
+                for n, _, _ in engines:
+                    print("impl[%s] :" % n, res[n][i])
+                    print("oracle[%s]:" % n, oracle(o, res[n][i]) or "ok")
         return 0
 
     # ---- 0. translator --------------------------------------------------------------------
     try:
-        g, info = callgraph.translate(write=True)
+        graphs = callgraph.translate(write=True)
     except vlib.BuildError as e:
         vlib.log(str(e))
         print("ERROR: cannot compile the working tree to LLVM IR for %s" % PROP)
         return 2
-    cov["translator"] = info
-    offending = callgraph.offending(g)
-    dm = callgraph.demangle(g.names)
-    reach_names = [g.names[x] for x in sorted(g.reach)]
-    cov["whitelist_reached"] = {n: g.cls[n][1] for n in reach_names if n in g.cls and g.cls[n][0] == "whitelist"}
-    cov["excluded_edges_from_reachable_code"] = sorted(set(
-        "%s -> %s (%s)" % (dm[a][:100], dm[b][:100], why[:80]) for a, b, why in g.excluded if g.idx[a] in g.reach))[:60]
-    cov["entries"] = [dm[n][:120] for n in g.entries]
-    cov["reachable_indirect_call_sites"] = len([1 for s, t, c in g.indirect_sites if g.idx[s] in g.reach])
+    cov["translator"] = [info for _, info in graphs]
+    offending = []
+    pre_broken = []
+    for g, info in graphs:
+        for o in callgraph.offending(g):
+            o["config"] = info["config"]
+            offending.append(o)
+        dm = callgraph.demangle(g.names)
+        reach_names = [g.names[x] for x in sorted(g.reach)]
+        cov.setdefault("whitelist_reached", {}).update({n: g.cls[n][1] for n in reach_names if n in g.cls and g.cls[n][0] == "whitelist"})
+        cov.setdefault("excluded_edges_from_reachable_code", {})[info["config"]] = sorted(set(
+            "%s -> %s (%s)" % (dm[a][:100], dm[b][:100], why[:80]) for a, b, why in g.excluded if g.idx[a] in g.reach))[:60]
+        cov.setdefault("entries", {})[info["config"]] = [dm[n][:120] for n in g.entries]
+        cov.setdefault("reachable_indirect_call_sites", {})[info["config"]] = len([1 for s, t, c in g.indirect_sites if g.idx[s] in g.reach])
+        # obligations of the translator itself: the public realtime API must be in the module and therefore an entry;
+        # every instruction must have been understood
+        if info["missing_api_entries"]:
+            pre_broken.append("[%s] public realtime API functions are not defined in the analysed module, so they are not entries: %s"
+                              % (info["config"], ", ".join(info["missing_api_entries"])))
+        if info["parse_problems"]:
+            pre_broken.append("[%s] the extractor could not parse: %s" % (info["config"], "; ".join(info["parse_problems"][:3])))
+    offending.sort(key=lambda o: len(o["path"]))
 
-    # ---- 1. proofs ------------------------------------------------------------------------
-    broken, tail, axioms_seen = check_proofs(tier, cov)
-    # the translator's own verdict and the kernel's must agree; either one failing is a failed obligation
-    if offending and not broken:
-        broken.append("translator reports an offending call path but every theorem checked (internal inconsistency)")
-    cov["trusted_base"] = (["Lean 4.33.0 kernel"] + TRUSTED + ["g++ 12 / glibc of this image (dynamic engine, no sanitizer)"] +
-                           ["axioms reported by #print axioms: " + (", ".join(sorted(axioms_seen)) or "none")])
+    # ---- 1. proofs (in the background, while the dynamic engines run) -----------------------
+    pres = {}
 
-    # ---- 2. dynamic engine ----------------------------------------------------------------
+    def proofs():
+        try:
+            pres["r"] = check_proofs(tier, cov)
+        except Exception as e:  # noqa: BLE001
+            pres["r"] = (["internal error while checking the proofs: %r" % (e,)], "", set())
+    th = threading.Thread(target=proofs)
+    th.start()
+
+    # ---- 2. dynamic engines -----------------------------------------------------------------
     rng = random.Random(seed * 1000003 + 17)
     ops = ["selftest"]
     corpus = os.path.join(vlib.VERIF, "corpus", PROP + ".ops")
@@ -879,27 +1049,31 @@ def _run(args, workdir, t0):
                 ncorpus += 1
     stats = {}
     ops += list(generate(rng, tier, stats))
-    outs = run_ops(exe, ops, workdir, "main")
-    fails = []
+    res = run_all(engines, ops, workdir, "main")
+    fails = []          # (op, out, failure, engine)
     distinct = set()
     crashes = 0
     rejected = 0
-    for op, out in zip(ops, outs):
-        if out.startswith("crash:"):
-            crashes += 1
-        f = oracle(op, out)
-        if f is not None:
-            if f.startswith("engine rejected"):
-                rejected += 1
-            fails.append((op, out, f))
-        if nontrivial(op, out) and HITS.match(out):
-            distinct.add(hashlib.md5(op.encode()).digest())
+    for n, _, _ in engines:
+        for op, out in zip(ops, res[n]):
+            if out.startswith("crash:"):
+                crashes += 1
+            f = oracle(op, out)
+            if f is not None:
+                if f.startswith("engine rejected"):
+                    rejected += 1
+                fails.append((op, out, f, n))
+            if nontrivial(op, out) and HITS.match(out):
+                distinct.add(hashlib.md5(op.encode()).digest())
+    outs = res[engines[-1][0] if len(engines) == 1 else "shipped"]
     functional = {"dispatch_matched": sum(1 for op, o in zip(ops, outs) if op.startswith("disp") and re.search(r"matches=[1-9]", o)),
                   "dispatch_unmatched": sum(1 for op, o in zip(ops, outs) if op.startswith("disp") and " matches=0" in o),
                   "callbacks_replied": sum(1 for op, o in zip(ops, outs) if op.startswith("disp") and re.search(r"replies=[1-9]", o)),
                   "builds_rejected_too_small": sum(1 for op, o in zip(ops, outs) if op.startswith("build") and " len=0 " in o),
                   "ring_reads": sum(int(m.group(1)) for o in outs for m in [re.search(r" r=(\d+) has=", o)] if m),
-                  "crashes": crashes}
+                  "interrupted_ring_operations_completed": sum(int(m.group(1)) for o in outs for m in [re.search(r" nested=(\d+) ", o)] if m),
+                  "library_macro_ports_checked_for_empty_callback": next((int(m.group(1)) for m in [re.search(r"ports_checked=(\d+)", outs[0])] if m), 0),
+                  "crashes": crashes, "crash_baseline_unchanged_tree": 0}
     sugar_ports = set()
     for op, o in zip(ops, outs):
         if op.startswith("disp sugar"):
@@ -908,34 +1082,53 @@ def _run(args, workdir, t0):
                 sugar_ports.add(bytes.fromhex(m.group(1)).decode("latin1"))
     functional["sugar_ports_last_matched"] = sorted(sugar_ports)
 
+    th.join()
+    broken, tail, axioms_seen = pres["r"]
+    broken = pre_broken + broken
+    # the translator's own verdict and the kernel's must agree; either one failing is a failed obligation
+    if offending and not [b for b in broken if b.startswith("theorem")]:
+        broken.append("translator reports an offending call path but every theorem checked (internal inconsistency)")
+    cov["trusted_base"] = (["Lean 4.33.0 kernel"] + TRUSTED + ["g++ 12 / glibc of this image (dynamic engines, no sanitizer)"] +
+                           ["axioms reported by #print axioms: " + (", ".join(sorted(axioms_seen)) or "none")])
+
     # ---- 3. search towards the offending path ----------------------------------------------
     searched = 0
-    if broken and not fails:
+    if broken and not [f for f in fails if not f[2].startswith("engine rejected")]:
         kinds = kinds_for_path(sum([o["path_demangled"] for o in offending[:3]], [])) if offending else list(KINDS)
         rng2 = random.Random(seed * 7919 + 3)
         st2 = {}
         sops = list(generate(rng2, "thorough", st2, kinds=kinds, n=60000 if tier == "quick" else 400000))
-        souts = run_ops(exe, sops, workdir, "search")
+        sres = run_all(engines, sops, workdir, "search")
         searched = len(sops)
-        for op, out in zip(sops, souts):
-            f = oracle(op, out)
-            if f is not None and not f.startswith("engine rejected"):
-                fails.append((op, out, f))
+        for n, _, _ in engines:
+            hit = False
+            for op, out in zip(sops, sres[n]):
+                f = oracle(op, out)
+                if f is not None and not f.startswith("engine rejected"):
+                    fails.append((op, out, f, n))
+                    hit = True
+                    break
+            if hit:
                 break
         cov["search_kinds"] = kinds
     cov["search_evaluations"] = searched
 
     # ---- 4. verdict -----------------------------------------------------------------------
     violations = 0
-    off_payload = [{k: o[k] for k in ("function", "demangled", "why", "entry_demangled", "path", "path_demangled", "steps")} for o in offending[:8]]
+    off_payload = [{k: o[k] for k in ("config", "function", "demangled", "why", "entry_demangled", "path", "path_demangled", "steps")}
+                   for o in offending[:8]]
     real_fails = [f for f in fails if not f[2].startswith("engine rejected")]
+    # prefer a failing input that reports counted hits over one that only crashed
+    real_fails.sort(key=lambda f: 1 if f[1].startswith("crash:") else 0)
     if real_fails:
-        op, out, f = real_fails[0]
+        op, out, f, eng = real_fails[0]
         path = vlib.write_replay(PROP, "input", {
-            "property": PROP, "kind": "failing-input", "ops": [op], "impl": out, "failure": f, "seed": seed, "tier": tier,
+            "property": PROP, "kind": "failing-input", "ops": [op], "impl": out, "engine": eng, "failure": f, "seed": seed, "tier": tier,
             "broken_obligations": broken, "offending_paths": off_payload, "n_failing_inputs": len(real_fails),
+            "failing_engines": sorted(set(x[3] for x in real_fails)),
             "note": ("the proof obligations fail as well: see offending_paths" if broken else
-                     "the theorems check on the generated graph but an execution allocates/locks: the call-graph model is unsound for this input")})
+                     "the theorems check on the generated graphs but an execution allocates/locks/throws/blocks/dies: the call-graph "
+                     "model (or one of its stated preconditions) does not hold for this input")})
         print("VIOLATION property=%s replay=%s" % (PROP, path))
         violations = len(real_fails)
     elif broken:
@@ -953,11 +1146,12 @@ def _run(args, workdir, t0):
     # ---- 5. evidence ----------------------------------------------------------------------
     idxs = sorted(set([0, 1, len(ops) // 3, len(ops) // 2, (2 * len(ops)) // 3, len(ops) - 1]))
     cov.update({
-        "evaluations": len(ops),
+        "evaluations": len(ops) * len(engines),
+        "evaluations_per_engine": len(ops),
         "distinct_nontrivial": len(distinct),
         "rule": RULE,
         "samples": [{"op": ops[j][:600], "impl": outs[j][:300]} for j in idxs if j < len(ops)],
-        "traces_validated_against_impl": len(ops) - len(real_fails),
+        "traces_validated_against_impl": len(ops) * len(engines) - len(real_fails),
         "oracle_failures": len(real_fails),
         "corpus_cases": ncorpus,
         "input_distribution": stats,
@@ -965,11 +1159,14 @@ def _run(args, workdir, t0):
         "broken_obligations": broken,
         "offending_paths": off_payload,
     })
-    ev = {"property_id": PROP, "tier": tier, "seed": seed, "level": "proof", "coverage": cov,
+    ev = {"property_id": PROP, "tier": tier, "seed": seed, "level": "proof over a regenerated call graph; partial",
+          "level_note": LEVEL_NOTE, "coverage": cov,
           "assumptions": ASSUMPTIONS, "wall_s": round(time.time() - t0, 2), "violations": violations}
     with open(os.path.join(vlib.EVID, PROP + ".json"), "w") as f:
         json.dump(ev, f, indent=1)
-    vlib.log("%s %s: graph %d nodes / %d edges / %d reachable, %d/%d obligations, %d dynamic cases (%d distinct non-trivial), "
-             "%d hits, %d crashes, %.1fs" % (PROP, tier, info["nodes"], info["edges"], info["reachable"], cov["discharged"],
-                                             cov["obligations"], len(ops), len(distinct), len(real_fails), crashes, time.time() - t0))
+    vlib.log("%s %s: graphs %s, %d/%d obligations, %d dynamic cases x %d engines (%d distinct non-trivial), "
+             "%d failing, %d crashes, %.1fs" % (
+                 PROP, tier, "; ".join("%s %d nodes/%d edges/%d reachable" % (i["config"], i["nodes"], i["edges"], i["reachable"])
+                                       for _, i in graphs), cov["discharged"], cov["obligations"] + len(pre_broken), len(ops),
+                 len(engines), len(distinct), len(real_fails), crashes, time.time() - t0))
     return 1 if violations else 0
